@@ -160,6 +160,18 @@ func main() {
 		}
 		fmt.Println("examined", n)
 		os.Exit(0)
+	case "anchors":
+		// exploration: where the obligations of a property are anchored (rule | position)
+		f, ok := checks[os.Args[2]]
+		if !ok {
+			os.Exit(2)
+		}
+		r := NewRun(os.Args[2], "quick", 0)
+		f(r)
+		for _, o := range r.Obs {
+			fmt.Printf("%s\t%s\n", o.Rule, o.Pos)
+		}
+		os.Exit(0)
 	case "weaken":
 		filter := ""
 		if len(os.Args) > 3 {
